@@ -16,6 +16,8 @@ CLAUSE_PROPS = {
     'rollback.': ('C02',),
     'foreign.': ('C03',),
     'clean.': ('C12',),
+    'cache.': ('C16',),
+    'contract.': ('C10',),
 }
 
 
